@@ -87,7 +87,8 @@ Inductive ckind :=
 | KCallRequires | KCallHolding | KCalleeUndeclared                           (* subject: the callee *)
 | KBreakLocks | KBreakOutside | KBranches | KLoopNeutral | KSwitchNeutral | KDeferInLoop | KDeferInSwitch
 | KReturnHeld | KGoHeld | KGoHolding | KLiteralNeutral | KReqAcqOverlap
-| KUndefinedCallee | KDuplicateName | KEntryRequires | KLiteralCallee | KUnsupported.   (* program-level *)
+| KUndefinedCallee | KDuplicateName | KEntryRequires | KLiteralCallee | KUnsupported
+| KCheckThenAct.                                                             (* subject: the field *)   (* program-level *)
 Definition complaint := (ckind * string)%type.
 Notation "a +++ b" := (@List.app complaint a b) (at level 60, right associativity).
 
@@ -266,7 +267,7 @@ Definition ckind_eqb (a b : ckind) : bool :=
   | KLoopNeutral, KLoopNeutral | KSwitchNeutral, KSwitchNeutral | KDeferInLoop, KDeferInLoop | KDeferInSwitch, KDeferInSwitch
   | KReturnHeld, KReturnHeld | KGoHeld, KGoHeld | KGoHolding, KGoHolding | KLiteralNeutral, KLiteralNeutral | KReqAcqOverlap, KReqAcqOverlap
   | KUndefinedCallee, KUndefinedCallee | KDuplicateName, KDuplicateName | KEntryRequires, KEntryRequires
-  | KLiteralCallee, KLiteralCallee | KUnsupported, KUnsupported => true
+  | KLiteralCallee, KLiteralCallee | KUnsupported, KUnsupported | KCheckThenAct, KCheckThenAct => true
   | _, _ => false
   end.
 Definition complaint_eqb (a b : complaint) : bool := ckind_eqb (fst a) (fst b) && String.eqb (snd a) (snd b).
@@ -341,3 +342,125 @@ Fixpoint rops_trans (n : nat) (pr : program) (tbl : list (string * list rop)) (f
 (* complaints as flat triples (function, kind, subject): what the check prints and the driver parses *)
 Definition flat_complaints (l : list (string * list complaint)) : list (string * ckind * string) :=
   flat_map (fun fc => map (fun c => (fst fc, fst c, snd c)) (snd fc)) l.
+
+(* ================= check-then-act (atomicity of a decision on a guarded field) =================
+   A critical section of lock l = from an Acq l to the matching Rel l (for a function that requires l: its whole body).
+   Rule: a function must not write a field guarded by l in one critical section of l when it read that field in an EARLIER
+   critical section of l, released since, unless it read the field again in the current section before the write
+   ("look the graph up under the read lock, release, take the write lock and create it without looking again").
+   The analysis is path-insensitive where branches join (a field counts as re-read only if re-read on every branch, as
+   stale if stale on some branch), iterates loop bodies three times, treats a callee that REQUIRES locks as running inside
+   the caller's section (its reads and writes, transitively, as one block) and other callees as not touching the caller's
+   sections.  A structural obligation over the generated program, like roots_ops; no semantic theorem is attached to it. *)
+Local Close Scope string_scope.
+Record ctst := { ct_cur : list (string * list string);       (* held lock -> fields read in its current section *)
+                 ct_stale : list (string * string) }.         (* (lock, field): read in an earlier, released section *)
+Definition ct_init (req : held) : ctst := {| ct_cur := map (fun lm => (fst lm, [])) req; ct_stale := [] |}.
+Definition guard_locks (C : contracts) (f : string) : list string := match guard_of C f with GLocks ls => ls | _ => [] end.
+Definition ct_held (l : string) (s : ctst) : bool := match assoc l (ct_cur s) with Some _ => true | None => false end.
+Fixpoint cur_add (l f : string) (cur : list (string * list string)) : list (string * list string) :=
+  match cur with
+  | [] => []
+  | (l', fs) :: t => if String.eqb l l' then (l', if mem f fs then fs else f :: fs) :: t else (l', fs) :: cur_add l f t
+  end.
+Definition stale_del (l f : string) (st : list (string * string)) : list (string * string) :=
+  filter (fun p => negb (String.eqb l (fst p) && String.eqb f (snd p))) st.
+Definition stale_add (l f : string) (st : list (string * string)) : list (string * string) :=
+  if mem2 l f st then st else (l, f) :: st.
+(* a read (or a write, once checked) of f refreshes it in every held section of its guard locks *)
+Definition ct_touch (C : contracts) (f : string) (s : ctst) : ctst :=
+  fold_left (fun s l => if ct_held l s then {| ct_cur := cur_add l f (ct_cur s); ct_stale := stale_del l f (ct_stale s) |} else s)
+            (guard_locks C f) s.
+Definition ct_is_stale (C : contracts) (f : string) (s : ctst) : bool :=
+  existsb (fun l => ct_held l s && mem2 l f (ct_stale s)) (guard_locks C f).
+Definition cta_act (C : contracts) (s : ctst) (a : act) : list complaint * ctst :=
+  match a with
+  | Acq l _ => ([], if ct_held l s then s else {| ct_cur := (l, []) :: ct_cur s; ct_stale := ct_stale s |})
+  | Rel l _ => ([], {| ct_cur := filter (fun p => negb (String.eqb l (fst p))) (ct_cur s);
+                       ct_stale := fold_left (fun st f => stale_add l f st) (assocd l (ct_cur s) []) (ct_stale s) |})
+  | Rd f => ([], ct_touch C f s)
+  | Wr f => ((if ct_is_stale C f s then [(KCheckThenAct, f)] else []), ct_touch C f s)
+  | User _ => ([], s)
+  end.
+
+Definition ct_join (a b : ctst) : ctst :=
+  {| ct_cur := map (fun lf => (fst lf, filter (fun f => mem f (assocd (fst lf) (ct_cur b) [])) (snd lf))) (ct_cur a);
+     ct_stale := ct_stale a ++ filter (fun p => negb (mem2 (fst p) (snd p) (ct_stale a))) (ct_stale b) |}.
+Definition ct_joinopt (a b : option ctst) : option ctst :=
+  match a, b with Some x, Some y => Some (ct_join x y) | Some x, None => Some x | None, y => y end.
+Definition ct_joinall (l : list ctst) : option ctst := fold_left (fun acc s => ct_joinopt acc (Some s)) l None.
+
+Record ctres := { cr_c : list complaint; cr_n : option ctst; cr_b : list (nat * ctst); cr_r : list ctst }.
+Definition brk0 (b : list (nat * ctst)) : list ctst := flat_map (fun ns => match fst ns with O => [snd ns] | S _ => [] end) b.
+Definition brk_out (b : list (nat * ctst)) : list (nat * ctst) := flat_map (fun ns => match fst ns with O => [] | S n => [(n, snd ns)] end) b.
+
+(* reads / writes a requires-callee performs inside its caller's section *)
+Fixpoint direct_rw (p : prog) : list string * list string :=
+  match p with
+  | PAct (Rd f) | PDefer (Rd f) => ([f], [])
+  | PAct (Wr f) | PDefer (Wr f) => ([], [f])
+  | PSeq p q | PAlt p q => let '(r1, w1) := direct_rw p in let '(r2, w2) := direct_rw q in (r1 ++ r2, w1 ++ w2)
+  | PLoop p | PBlock p | PLoop1 p => direct_rw p
+  | _ => ([], [])
+  end.
+Definition needs_locks (C : contracts) (f : string) : bool := match requires C f with [] => false | _ => true end.
+Fixpoint rw_summary (n : nat) (C : contracts) (pr : program) (tbl : list (string * (list string * list string)))
+  : list (string * (list string * list string)) :=
+  match n with
+  | O => tbl
+  | S k =>
+      rw_summary k C pr
+        (map (fun fb => let '(r, w) := direct_rw (snd fb) in
+                        let sub := filter (needs_locks C) (dedup (callees (snd fb))) in
+                        (fst fb, (dedup (r ++ flat_map (fun c => fst (assocd c tbl ([], []))) sub),
+                                  dedup (w ++ flat_map (fun c => snd (assocd c tbl ([], []))) sub)))) pr)
+  end.
+
+Section CTA.
+  Variable C : contracts.
+  Variable summ : list (string * (list string * list string)).
+
+  Definition cta_call (f : string) (s : ctst) : list complaint * ctst :=
+    if needs_locks C f then
+      let '(r, w) := assocd f summ ([], []) in
+      (flat_map (fun x => if ct_is_stale C x s && negb (mem x r) then [(KCheckThenAct, x)] else []) w,
+       fold_left (fun s x => ct_touch C x s) (r ++ w) s)
+    else ([], s).
+
+  Fixpoint cta (p : prog) (s : ctst) : ctres :=
+    match p with
+    | PSkip | PDefer _ => {| cr_c := []; cr_n := Some s; cr_b := []; cr_r := [] |}
+    | PAct a => let '(c, s') := cta_act C s a in {| cr_c := c; cr_n := Some s'; cr_b := []; cr_r := [] |}
+    | PRet => {| cr_c := []; cr_n := None; cr_b := []; cr_r := [s] |}
+    | PBrk n => {| cr_c := []; cr_n := None; cr_b := [(n, s)]; cr_r := [] |}
+    | PSeq p q =>
+        let r1 := cta p s in
+        match cr_n r1 with
+        | None => r1
+        | Some s1 => let r2 := cta q s1 in
+                     {| cr_c := cr_c r1 +++ cr_c r2; cr_n := cr_n r2; cr_b := cr_b r1 ++ cr_b r2; cr_r := cr_r r1 ++ cr_r r2 |}
+        end
+    | PAlt p q =>
+        let r1 := cta p s in let r2 := cta q s in
+        {| cr_c := cr_c r1 +++ cr_c r2; cr_n := ct_joinopt (cr_n r1) (cr_n r2); cr_b := cr_b r1 ++ cr_b r2; cr_r := cr_r r1 ++ cr_r r2 |}
+    | PLoop p =>
+        let round := fun s => let r := cta p s in
+                              (r, match ct_joinall (s :: match cr_n r with Some x => [x] | None => [] end ++ brk0 (cr_b r)) with Some x => x | None => s end) in
+        let '(r1, s1) := round s in let '(r2, s2) := round s1 in let '(r3, s3) := round s2 in
+        {| cr_c := cr_c r1 +++ cr_c r2 +++ cr_c r3; cr_n := Some s3; cr_b := brk_out (cr_b r3); cr_r := cr_r r3 |}
+    | PLoop1 p =>
+        let r := cta p s in
+        {| cr_c := cr_c r; cr_n := ct_joinall (match cr_n r with Some x => [x] | None => [] end ++ brk0 (cr_b r));
+           cr_b := brk_out (cr_b r); cr_r := cr_r r |}
+    | PCall f => let '(c, s') := cta_call f s in {| cr_c := c; cr_n := Some s'; cr_b := []; cr_r := [] |}
+    | PGo p => let r := cta p (ct_init []) in {| cr_c := cr_c r; cr_n := Some s; cr_b := []; cr_r := [] |}
+    | PBlock p =>
+        let r := cta p s in
+        {| cr_c := cr_c r; cr_n := ct_joinall (match cr_n r with Some x => [x] | None => [] end ++ cr_r r); cr_b := []; cr_r := [] |}
+    end.
+End CTA.
+
+Definition cta_program (C : contracts) (pr : program) : list (string * list complaint) :=
+  let summ := rw_summary 8 C pr [] in
+  flat_map (fun fb => match dedup_c (cr_c (cta C summ (snd fb) (ct_init (requires C (fst fb))))) with
+                      | [] => [] | w => [(fst fb, w)] end) pr.
